@@ -258,6 +258,12 @@ func serverForwardRequests(
 		// no one uses.
 		delete(req.Header, "Upgrade")
 
+		// Keep [http.Request.Write] from adding its own User-Agent header field
+		// when the client did not send one.
+		if _, ok := req.Header["User-Agent"]; !ok {
+			req.Header["User-Agent"] = nil
+		}
+
 		// Notify the response forwarding routine about the request before writing it out,
 		// so that a received 1xx informational response can be forwarded back to the client
 		// in time, unblocking the write.
